@@ -215,8 +215,12 @@ def _one_d(a_center, b_center, alpha, beta, la, lb):
     return k / math.sqrt(p) * np.einsum("n,in,jn->ij", w, pa, pb)
 
 
-def overlap(shells0, conventions0, coords0, shells1=None, conventions1=None, coords1=None):
-    """Reference overlap matrix (no screening)."""
+def overlap(shells0, conventions0, coords0, shells1=None, conventions1=None, coords1=None, screen=None):
+    """Reference overlap matrix (no screening).
+
+    With ``screen`` (e.g. 1e-15) also returns a matrix bounding, per element, the absolute contributions of
+    primitive pairs whose Gaussian prefactor exp(-ab/(a+b) R^2) is below ``screen`` (what a screening
+    implementation is allowed to omit)."""
     e0 = expand(shells0, conventions0)
     c0 = np.asarray(coords0, dtype=float)
     if shells1 is None:
@@ -227,6 +231,7 @@ def overlap(shells0, conventions0, coords0, shells1=None, conventions1=None, coo
     n0 = sum(m[0].shape[0] for *_, m in e0)
     n1 = sum(m[0].shape[0] for *_, m in e1)
     out = np.zeros((n0, n1))
+    slack = np.zeros((n0, n1))
     o0 = 0
     for ic0, l0, ex0, co0, m0 in e0:
         nf0 = m0[0].shape[0]
@@ -238,14 +243,22 @@ def overlap(shells0, conventions0, coords0, shells1=None, conventions1=None, coo
             ia = np.array([p[0] for p in pw0]), np.array([p[1] for p in pw0]), np.array([p[2] for p in pw0])
             ib = np.array([p[0] for p in pw1]), np.array([p[1] for p in pw1]), np.array([p[2] for p in pw1])
             block = np.zeros((nf0, nf1))
+            sblock = np.zeros((nf0, nf1))
+            rr = float(((c0[ic0] - c1[ic1]) ** 2).sum())
             for a, ca, ma in zip(ex0, co0, m0):
                 for b, cb, mb in zip(ex1, co1, m1):
                     tabs = [_one_d(c0[ic0][ax], c1[ic1][ax], a, b, l0, l1) for ax in range(3)]
                     scart = tabs[0][np.ix_(ia[0], ib[0])] * tabs[1][np.ix_(ia[1], ib[1])] * tabs[2][np.ix_(ia[2], ib[2])]
-                    block += ca * cb * (ma @ scart @ mb.T)
+                    contrib = ca * cb * (ma @ scart @ mb.T)
+                    block += contrib
+                    if screen is not None and math.exp(-a * b / (a + b) * rr) < screen * (1 + 1e-9):
+                        sblock += np.abs(contrib)
             out[o0 : o0 + nf0, o1 : o1 + nf1] = block
+            slack[o0 : o0 + nf0, o1 : o1 + nf1] = sblock
             o1 += nf1
         o0 += nf0
+    if screen is not None:
+        return out, slack
     return out
 
 
